@@ -404,6 +404,8 @@ impl<'t, 's> TreeGen<'t, 's> {
 struct RefWalk {
     out: Vec<String>,
     interior: bool,
+    /// also the nodes that have children of their own (recorder D)
+    full: bool,
     infix_binary: bool,
     infix_assign: bool,
 }
@@ -415,6 +417,11 @@ fn range_id(r: &SourceRange) -> u32 {
 impl RefWalk {
     fn enter(&mut self, what: &str) {
         if self.interior {
+            self.out.push(format!("enter:{}", what));
+        }
+    }
+    fn enter_full(&mut self, what: &str) {
+        if self.full {
             self.out.push(format!("enter:{}", what));
         }
     }
@@ -503,6 +510,7 @@ impl RefWalk {
                 }
             }
             Statement::ArrayPop(a) => {
+                self.enter_full("arraypop");
                 self.primary(&a.expr.array);
                 if let Some(d) = &a.dest {
                     self.lhs(d)
@@ -546,22 +554,26 @@ impl RefWalk {
         }
     }
     fn subscript(&mut self, a: &ArraySubscript) {
+        self.enter_full("subscript");
         self.primary(&a.array);
         self.primary(&a.subscript);
     }
     fn call(&mut self, c: &FunctionCall) {
+        self.enter_full("call");
         self.var_name(&c.name.0, &c.name.1);
         for a in &c.args {
             self.expr(a)
         }
     }
     fn list(&mut self, l: &ExpressionList) {
+        self.enter_full("list");
         self.expr(&l.first);
         for e in &l.rest {
             self.expr(e)
         }
     }
     fn poetic(&mut self, p: &PoeticNumberLiteral) {
+        self.enter_full("poetic");
         for e in &p.elems {
             self.out.push(format!("poetic:{:?}", e));
         }
@@ -571,6 +583,7 @@ impl RefWalk {
         match e {
             Expression::PrimaryExpression(p) => self.primary(p),
             Expression::BinaryExpression(b) => {
+                self.enter_full("binary");
                 if !self.infix_binary {
                     self.out.push(format!("binop:{:?}", b.operator));
                 }
@@ -581,6 +594,7 @@ impl RefWalk {
                 self.list(&b.rhs);
             }
             Expression::UnaryExpression(u) => {
+                self.enter_full("unary");
                 self.out.push(format!("unop:{:?}", u.operator));
                 self.expr(&u.operand);
             }
@@ -595,7 +609,10 @@ impl RefWalk {
             PrimaryExpression::Identifier(i) => self.ident(i),
             PrimaryExpression::ArraySubscript(a) => self.subscript(a),
             PrimaryExpression::FunctionCall(c) => self.call(c),
-            PrimaryExpression::ArrayPop(a) => self.primary(&a.array),
+            PrimaryExpression::ArrayPop(a) => {
+                self.enter_full("arraypop");
+                self.primary(&a.array)
+            }
         }
     }
 }
@@ -766,20 +783,8 @@ impl VisitExpr for LeafRecorder {
     leaf_callbacks!();
 }
 
-/// Recorder B: leaf callbacks plus the pure dispatch methods, which log
-/// "entered node" (and may fail there) and then repeat the one-line match.
-struct InteriorRecorder {
-    log: Log,
-}
-
-impl Visit for InteriorRecorder {
-    type Output = Trace;
-    type Error = Injected;
-}
-
-impl VisitExpr for InteriorRecorder {
-    leaf_callbacks!();
-
+macro_rules! dispatch_callbacks {
+    () => {
     fn visit_assignment_lhs(&mut self, a: &AssignmentLHS) -> visit::Result<Self> {
         let here = self.log.cb("enter:lhs".into())?;
         Ok(here.combine(match a {
@@ -844,6 +849,90 @@ impl VisitExpr for InteriorRecorder {
             VariableName::Common(x) => self.visit_common_identifier(WithRange(x, n.1.clone())),
             VariableName::Proper(x) => self.visit_proper_identifier(WithRange(x, n.1.clone())),
         }?))
+    }
+    };
+}
+
+/// Recorder B: leaf callbacks plus the pure dispatch methods, which log
+/// "entered node" (and may fail there) and then repeat the one-line match.
+struct InteriorRecorder {
+    log: Log,
+}
+
+impl Visit for InteriorRecorder {
+    type Output = Trace;
+    type Error = Injected;
+}
+
+impl VisitExpr for InteriorRecorder {
+    leaf_callbacks!();
+
+    dispatch_callbacks!();
+}
+
+/// Recorder D: overrides EVERY VisitExpr method (logging "entered node",
+/// possibly failing there, then doing what the default does). With it the
+/// code under test is the runner: its statement-level traversal and its
+/// forwarding of every method to the wrapped visitor - an override that the
+/// runner bypasses shows up as a missing "enter" event.
+struct FullRecorder {
+    log: Log,
+}
+
+impl Visit for FullRecorder {
+    type Output = Trace;
+    type Error = Injected;
+}
+
+impl VisitExpr for FullRecorder {
+    leaf_callbacks!();
+    dispatch_callbacks!();
+
+    fn visit_poetic_number_literal(&mut self, p: &PoeticNumberLiteral) -> visit::Result<Self> {
+        let mut acc = self.log.cb("enter:poetic".into())?;
+        for e in &p.elems {
+            acc = acc.combine(self.visit_poetic_number_literal_elem(e)?);
+        }
+        Ok(acc)
+    }
+    fn visit_array_pop_expr(&mut self, a: &ArrayPopExpr) -> visit::Result<Self> {
+        let here = self.log.cb("enter:arraypop".into())?;
+        Ok(here.combine(self.visit_primary_expression(&a.array)?))
+    }
+    fn visit_expression_list(&mut self, e: &ExpressionList) -> visit::Result<Self> {
+        let mut acc = self.log.cb("enter:list".into())?;
+        acc = acc.combine(self.visit_expression(&e.first)?);
+        for x in &e.rest {
+            acc = acc.combine(self.visit_expression(x)?);
+        }
+        Ok(acc)
+    }
+    fn visit_binary_expression(&mut self, e: &BinaryExpression) -> visit::Result<Self> {
+        let here = self.log.cb("enter:binary".into())?;
+        Ok(here
+            .combine(self.visit_expression(&e.lhs)?)
+            .combine(self.visit_binary_operator(e.operator)?)
+            .combine(self.visit_expression_list(&e.rhs)?))
+    }
+    fn visit_unary_expression(&mut self, e: &UnaryExpression) -> visit::Result<Self> {
+        let here = self.log.cb("enter:unary".into())?;
+        Ok(here
+            .combine(self.visit_unary_operator(e.operator)?)
+            .combine(self.visit_expression(&e.operand)?))
+    }
+    fn visit_array_subscript(&mut self, a: &ArraySubscript) -> visit::Result<Self> {
+        let here = self.log.cb("enter:subscript".into())?;
+        Ok(here
+            .combine(self.visit_primary_expression(&a.array)?)
+            .combine(self.visit_primary_expression(&a.subscript)?))
+    }
+    fn visit_function_call(&mut self, f: &FunctionCall) -> visit::Result<Self> {
+        let mut acc = self.log.cb("enter:call".into())?;
+        acc = acc.combine(self.visit_variable_name(f.name.as_ref())?);
+        for a in &f.args {
+            acc = acc.combine(self.visit_expression(a)?);
+        }
+        Ok(acc)
     }
 }
 
@@ -917,6 +1006,7 @@ enum Recorder {
     Leaf,
     Interior,
     Statements,
+    Full,
 }
 
 struct Walk {
@@ -952,6 +1042,18 @@ fn walk(rec: Recorder, program: &Program, fail_at: Option<usize>, nonce: u64) ->
                 result,
             }
         }
+        Recorder::Full => {
+            let mut runner = ExprVisitorRunner::with_inner(FullRecorder {
+                log: Log::new(fail_at, nonce),
+            });
+            let result = guarded(|| runner.visit_program(program));
+            let log = runner.inner().log;
+            Walk {
+                events: log.events,
+                after_failure: log.after_failure,
+                result,
+            }
+        }
         Recorder::Statements => {
             let mut r = StatementRecorder {
                 log: Log::new(fail_at, nonce),
@@ -975,7 +1077,8 @@ fn admissible(rec: Recorder, program: &Program) -> Vec<Vec<String>> {
             for (ib, ia) in [(true, true), (false, true), (true, false), (false, false)] {
                 let mut w = RefWalk {
                     out: Vec::new(),
-                    interior: rec == Recorder::Interior,
+                    interior: rec == Recorder::Interior || rec == Recorder::Full,
+                    full: rec == Recorder::Full,
                     infix_binary: ib,
                     infix_assign: ia,
                 };
@@ -1118,7 +1221,7 @@ impl Property for C16 {
     fn evidence_info(&self) -> EvidenceInfo {
         EvidenceInfo {
             level: "fault_enumeration",
-            rule: "A scenario is a syntax tree built directly through the public AST fields from the tape (all 18 statement kinds, all expression forms, optional children present and absent, list tails 0-3, nested subscripts, calls with 1-4 arguments, functions with 1-4 parameters, poetic literals; every ranged leaf has a unique SourceRange as identity). Three recording visitors implemented outside the crate walk it: leaf callbacks only (through ExprVisitorRunner), leaf + dispatch callbacks (through ExprVisitorRunner), and a direct VisitProgram implementor. For each recorder: one walk without failure and one walk per callback index k with the failure injected at k (all k, both tiers). evaluations = walks. Non-trivial = the tree yields at least 3 leaf callbacks; distinct = distinct expected leaf-event list.".into(),
+            rule: "A scenario is a syntax tree built directly through the public AST fields from the tape (all 18 statement kinds, all expression forms, optional children present and absent, list tails 0-3, nested subscripts, calls with 1-4 arguments, functions with 1-4 parameters, poetic literals; every ranged leaf has a unique SourceRange as identity). Four recording visitors implemented outside the crate walk it: leaf callbacks only (through ExprVisitorRunner; every traversal default is real code), leaf + dispatch callbacks (through ExprVisitorRunner), a visitor overriding every VisitExpr method (through ExprVisitorRunner; tests the runner's statement traversal and forwarding), and a direct VisitProgram implementor. For each recorder: one walk without failure and one walk per callback index k with the failure injected at k (all k, both tiers). evaluations = walks. Non-trivial = the tree yields at least 3 leaf callbacks; distinct = distinct expected leaf-event list.".into(),
             assumptions: vec![
                 "Reference traversal (sim/src/c16.rs: RefWalk, ref_statements) over the public AST fields defines 'every node once, children in field order'.".into(),
                 "Latitude: the operator of BinaryExpression {operator, lhs, rhs} and of compound Assignment {dest, value, operator} may be visited in infix position (shipped behaviour) or in declaration order; everything else is strict.".into(),
@@ -1164,7 +1267,7 @@ impl Property for C16 {
             sample: None,
             digest: key,
         };
-        for rec in [Recorder::Leaf, Recorder::Interior, Recorder::Statements] {
+        for rec in [Recorder::Leaf, Recorder::Interior, Recorder::Statements, Recorder::Full] {
             let expected = if rec == Recorder::Leaf {
                 leaf_expected.clone()
             } else {
